@@ -101,10 +101,12 @@ def run(ctx):
         return vlib.run_tlc(ctx, "ProxyRead.tla", cfg, workers=per, tags=("DEV",), timeout=3400, heap="3g",
                             quiet=cfg in SHARD_MUT)
 
-    with ThreadPoolExecutor(max_workers=len(fams) + 1) as ex:
+    fams.sort(key=lambda f: f[0] != "rand")      # the longest run first
+    with ThreadPoolExecutor(max_workers=len(fams) + 2 + len(SHARD_MUT)) as ex:
         fa = ex.submit(tlc_asis, asis)
+        fr = [ex.submit(tlc, f) for f in fams]
         fs = [(cfg, ex.submit(tlc_shard, cfg)) for cfg in [shard] + sorted(SHARD_MUT)]
-        results = list(ex.map(tlc, fams))
+        results = [f.result() for f in fr]
         ra = fa.result()
         rs = [(cfg, f.result()) for cfg, f in fs]
     # Part 4: searchShard as pinned keeps the four invariants under every interleaving; the in-place shuffle of
